@@ -70,11 +70,22 @@ def imageSeps (img : Image) (m : Meta) : Except String (List (Nat × Nat)) := do
   let brs ← liveBranches img.bbn m.bbnBump (mkMarks m.bbnBump (trackedOf fl))
   pure (allSeps brs)
 
-/-- the key/value lists of the leaves, in key order of their separators -/
-def absLeaves (img : Image) : Except String (List (List (ByteArray × ByteArray))) := do
+/-- everything `absImage` needs, decoded once: manifest, `(separator, leaf page)` list, leaf contents -/
+structure Decoded where
+  m : Meta
+  seps : List (Nat × Nat)
+  ls : List (List (ByteArray × ByteArray))
+
+def decodeAll (img : Image) : Except String Decoded := do
   let m ← imageMeta img
   let seps ← imageSeps img m
-  seps.mapM (fun s => leafKVs img.ln m.lnBump s.2)
+  let ls ← seps.mapM (fun s => leafKVs img.ln m.lnBump s.2)
+  pure { m := m, seps := seps, ls := ls }
+
+/-- the key/value lists of the leaves, in key order of their separators -/
+def absLeaves (img : Image) : Except String (List (List (ByteArray × ByteArray))) := do
+  let d ← decodeAll img
+  pure d.ls
 
 /-- **the abstraction function**: the key/value list stored in the directory -/
 def absImage (img : Image) : Except String (List (ByteArray × ByteArray)) := do
@@ -163,13 +174,53 @@ def wfDetail (img : Image) : Except String Stats := do
          lnFree := (trackedOf lnFl).length, bbnFree := (trackedOf bbnFl).length,
          lnLeaked := countUnclaimed lnMarks m.lnBump, bbnLeaked := countUnclaimed bbnMarks m.bbnBump }
 
+/-- every key of leaf `i` lies in `[separator i, separator i+1)` -/
+def leavesInRange : List (Nat × Nat) → List (List (ByteArray × ByteArray)) → Bool
+  | [], [] => true
+  | (lo, _) :: ss, l :: ls =>
+    l.all (fun kv => decide (lo ≤ keyNat kv.1) &&
+      (match ss with | [] => true | (hi, _) :: _ => decide (keyNat kv.1 < hi))) && leavesInRange ss ls
+  | _, _ => false
+
+/-- the key numbers of all leaves, concatenated -/
+def imageKeys (ls : List (List (ByteArray × ByteArray))) : List Nat := ls.flatten.map (fun kv => keyNat kv.1)
+
 /-- **well-formedness of the beatree image** -/
 def wfImage (img : Image) : Except String Stats := do
-  let kvs ← absImage img
-  if !(strictlySorted (kvs.map (fun kv => keyNat kv.1))) then
+  let d ← decodeAll img
+  if !(strictlySorted (imageKeys d.ls)) then
     throw "image: keys are not strictly increasing across leaves"
+  if !(strictlySorted (d.seps.map (·.1))) then
+    throw "image: separators are not strictly increasing"
+  if !(leavesInRange d.seps d.ls) then
+    throw "image: a leaf holds a key outside [its separator, the next separator)"
   let st ← wfDetail img
-  if st.keys != kvs.length then throw "image: key count mismatch between the walk and absImage"
+  if st.keys != d.ls.flatten.length then throw "image: key count mismatch between the walk and absImage"
   pure st
+
+/-! ## the read path (mirror of `beatree::ops::lookup`: `search_branch`, then `LeafNode::get`) -/
+
+/-- the leaf page responsible for key number `k`: the child of the last separator `≤ k` -/
+def findLeaf : List (Nat × Nat) → Nat → Option Nat
+  | [], _ => none
+  | (s, pn) :: rest, k =>
+    if k < s then none else
+    match findLeaf rest k with
+    | some p => some p
+    | none => some pn
+
+/-- value stored under key number `k` in a key/value list (first match) -/
+def kvGet (l : List (ByteArray × ByteArray)) (k : Nat) : Option ByteArray :=
+  (l.find? (fun kv => keyNat kv.1 == k)).map (·.2)
+
+/-- route by separators, then search only the selected leaf -/
+def lookup (img : Image) (k : Nat) : Except String (Option ByteArray) := do
+  let m ← imageMeta img
+  let seps ← imageSeps img m
+  match findLeaf seps k with
+  | none => pure none
+  | some pn => do
+    let l ← leafKVs img.ln m.lnBump pn
+    pure (kvGet l k)
 
 end Nomt.Store
